@@ -12,8 +12,8 @@ ASSUMPTIONS = [
     "idle handshake: only the safety direction of the statement is judged (completion implies the conditions); "
     "the eight consecutive valid idle symbols are two valid idle words with nothing but not-valid words between "
     "them, the second one received at or after the start of the handshake; 16 symbols sent = 4 enabled cycles",
-    "timers: 10 us / 1 ms / 10 ms are converted with exact integer arithmetic at clock frequencies where they are "
-    "whole numbers of cycles; disabling the timers (leaving U0) restarts both intervals; an early keepalive is "
+    "timers: 1 ms is a whole number of cycles at every generated clock frequency; 10 us / 10 ms are rounded UP to "
+    "whole cycles where they are not (only lateness of the keepalive is bounded by the statement); disabling the timers (leaving U0) restarts both intervals; an early keepalive is "
     "not a violation (the statement only bounds lateness)",
 ]
 
@@ -131,7 +131,11 @@ class IdleSub(Sub):
 
 # ======================================================================================================= timers
 # (clock Hz, K = 10 us in cycles, R = 1 ms in cycles) - integer arithmetic: K = f/100000, R = f/1000
-CONFIGS = [(200_000, 2, 200), (500_000, 5, 500), (1_000_000, 10, 1000), (2_500_000, 25, 2500)]
+# The last five have a power-of-two 1 ms (256/512/1024 cycles: counters exactly fill their width) or a power-of-two
+# 10 us (4/8 cycles).  Where 10 us is not a whole number of cycles K is rounded UP: the statement only bounds the
+# keepalive's lateness, so the looser bound is the sound one; 1 ms is a whole number of cycles in every configuration.
+CONFIGS = [(200_000, 2, 200), (500_000, 5, 500), (1_000_000, 10, 1000), (2_500_000, 25, 2500),
+           (256_000, 3, 256), (512_000, 6, 512), (1_024_000, 11, 1024), (400_000, 4, 400), (800_000, 8, 800)]
 TEN_MS_FACTOR = 1000       # 10 ms = 1000 x 10 us
 
 
@@ -177,7 +181,8 @@ class TimerSub(Sub):
     name = "timers"
     budget = {"quick": 2500, "thorough": 40000}
     shrink_budget = 300
-    rule = ("LinkMaintenanceTimers at 0.2/0.5/1/2.5 MHz (10 us = 2/5/10/25 cycles, 1 ms = 200..2500 cycles): "
+    rule = ("LinkMaintenanceTimers at 0.2/0.5/1/2.5 MHz (10 us = 2/5/10/25 cycles, 1 ms = 200..2500 cycles) and at "
+            "0.256/0.512/1.024/0.4/0.8 MHz (1 ms = 256/512/1024 cycles resp. 10 us = 4/8 cycles: power-of-two counts): "
             "independent event lists for received link commands/packets (1-cycle strobes), transmitted link commands "
             "(1..8-cycle levels) and enable windows, with gaps drawn around the deadlines (K-2..K+2, R-2..R+2). "
             "Oracle: transition_to_recovery never earlier than R cycles after the last receive event/U0 entry and "
@@ -203,7 +208,7 @@ class TimerSub(Sub):
         tx_ev = st.tuples(gap, st.integers(1, 8)).map(list)
         en_ev = st.tuples(gap, st.integers(1, 3)).map(list)                            # enabled for gap, then off n cycles
         return st.fixed_dictionaries(dict(
-            cfg=weighted([(0, 5), (1, 3), (2, 2), (3, 1)]),
+            cfg=weighted([(0, 5), (1, 3), (2, 2), (3, 1), (4, 3), (5, 2), (6, 1), (7, 2), (8, 1)]),
             rx=st.lists(rx_ev, max_size=5), tx=st.lists(tx_ev, max_size=8), en=st.lists(en_ev, max_size=3),
             start_disabled=st.integers(0, 3), tail=gap))
 
